@@ -165,7 +165,7 @@ def tx_obligations(ex, transport, payload):
     P = g.proto
     cleared = P._partial_data is None and (P._partial_missing == 0 if isinstance(P._partial_missing, int)
                                            else ex.known(iterm(P._partial_missing) == 0))
-    ex.check("C07_fragment_state_cleared_for_every_transmission", bool(cleared))
+    ex.check("C07_C08_fragment_state_cleared_for_every_transmission", bool(cleared))
     ex.check("C10_transmission_uses_a_transport_of_the_running_loop", transport.loop is g.loop)
     lk = P._lock
     mine = lk is not None and lk.owner == g.me and (lk.is_locked is True or (
@@ -180,13 +180,15 @@ def timer_obligations(ex, P, g, evs, old_timer):
         if e[0] == "call_later":
             h = e[3]
             ok = h is P._timer or h.armed is False
-            ex.check("C05_C06_armed_timer_is_remembered", bool(ok))
+            ex.check("C04_C05_C06_armed_timer_is_remembered", bool(ok))
+            # an attempt is given up exactly one configured timeout after it was (re)armed, neither earlier nor later
+            ex.check("C04_C05_C06_timeout_delay_is_the_configured_timeout", ex.compare(_EQ, e[1], P.timeout))
     if old_timer is not None and old_timer is not P._timer:
         # the handle the object remembered at the start of the segment was replaced or dropped: it must not be armed
         a, pr = old_timer.armed, old_timer.present
         at = bterm(a) if not isinstance(a, bool) else z3.BoolVal(a)
         pt = bterm(pr) if not isinstance(pr, bool) else z3.BoolVal(pr)
-        ex.check("C05_no_armed_timeout_is_forgotten", mk_bool(z3.Not(z3.And(at, pt))))
+        ex.check("C04_C05_C07_no_armed_timeout_is_forgotten", mk_bool(z3.Not(z3.And(at, pt))))
 
 
 def lock_obligations(ex, g):
@@ -345,9 +347,6 @@ def callback_segment(ex, kind, which):
                          any(e[0] == "set_exception" and e[2] is o for e in evs))
             ex.check("C08_rejection_is_not_retried",
                      not any(e[0] in ("call_soon", "tx") for e in evs))
-        for e in evs:
-            if e[0] == "call_later":
-                ex.check("C04_C05_timeout_delay_is_the_configured_timeout", ex.compare(_EQ, e[1], P.timeout))
     if which == "_timeout_mechanism" and fut0 is not None:
         ex.check("C04_timeout_ends_the_wait",
                  mk_bool(iterm(P.response_future.state) != PENDING) if not isinstance(P.response_future.state, int)
@@ -466,7 +465,7 @@ def send_request_segment(ex, kind, case=None, entry=None):
         return
     # ---- normal return: a finished future, either the validated answer or MaxRetriesException
     if isinstance(result, GFuture) and result.exc is MaxRetriesException and result.state == EXCEPTION:
-        failed = g.connect_failed
+        failed = g.connect_failed or g.send_failed
         cf = getattr(g, "callee_connect_failed", None)
         exact = mk_bool(used == iterm(P.retries) - iterm(r0) + 1)
         if not failed:
@@ -616,3 +615,69 @@ def send_request_raised(ex, E, bound):
     if E is RequestRejectedException:
         return ex.new_object(RequestRejectedException(models.fresh_strid(ex, "reason")))
     return ex.new_object(OSError("transport error"))
+
+
+# ---- C01: the validator a command carries answers *that very request* ----------------------------------------------------------
+BINDING_CLASSES = ("ModbusRtuReadCommand", "ModbusRtuWriteCommand", "ModbusRtuWriteMultiCommand",
+                   "ModbusTcpReadCommand", "ModbusTcpWriteCommand", "ModbusTcpWriteMultiCommand",
+                   "Aa55ReadCommand", "Aa55WriteCommand", "Aa55WriteMultiCommand")
+
+
+def command_binding(ex, clsname):
+    """build the command from arbitrary arguments of its domain (the real constructor runs), hand its validator an
+    arbitrary byte string and require: accepted => well-formed answer to the operation the arguments denote (spec
+    functions wf_rtu / wf_tcp / wf_aa55 of the sidecars, i.e. function code, count / echo and checksum of C01)"""
+    import goodwe.protocol as gp
+    from . import contracts
+    import contracts.modbus as cm
+    import contracts.protocol_cmd as cp
+    cls = getattr(gp, clsname)
+    ex.unit = f"binding:{clsname}"
+    aa55 = clsname.startswith("Aa55")
+    multi = "Multi" in clsname
+    read = "Read" in clsname
+    offset = ex.fresh_int("offset")
+    ex.assume(mk_bool(z3.And(offset.t >= 0, offset.t <= 0xFFFF)))
+    args = [] if aa55 else [ex.fresh_int("comm_addr")]
+    if not aa55:
+        ex.assume(mk_bool(z3.And(args[0].t >= 0, args[0].t <= 255)))
+    args.append(offset)
+    values = None
+    if read:
+        value = ex.fresh_int("count")
+        ex.assume(mk_bool(z3.And(value.t >= 1, value.t <= 125)))
+        args.append(value)
+    elif multi:
+        values = SBytes.fresh(ex, "values")
+        n = iterm(values.blen())
+        ex.assume(mk_bool(n == 8) if aa55 else mk_bool(z3.And(n >= 2, n <= 246, n % 2 == 0)))
+        args.append(values)
+        value = mk_int(n / 2)
+    else:
+        value = ex.fresh_int("value")
+        ex.assume(mk_bool(z3.And(value.t >= -32768, value.t <= 32767)))
+        args.append(value)
+    ex.inputs = {"cls": clsname, "comm_addr": args[0] if not aa55 else 0, "offset": offset,
+                 "value": value if values is None else 0, "values": values if values is not None else b""}
+    cmd = ex.call(cls, args, {})
+    data = SBytes.fresh(ex, "data")
+    ex.inputs["data"] = data
+    try:
+        res = ex.call(cmd.validator, [data], {})
+    except PyRaise as pr:
+        from goodwe.exceptions import PartialResponseException, RequestRejectedException
+        ex.check("C01_C04_validator_of_the_command_raises_only_documented_outcomes",
+                 isinstance(pr.exc, (PartialResponseException, RequestRejectedException)), detail=repr(pr.exc)[:120])
+        return
+    t = ex.truth_value(res)
+    accepted = t if isinstance(t, bool) else ex.branch(t.t, tag="accepted")
+    if not accepted:
+        return
+    fn = 3 if read else (16 if multi else 6)
+    if aa55:
+        ok = contracts.eval_spec_value(ex, cp.wf_aa55, [data, "019A" if read else "02B9"])
+    elif "Rtu" in clsname:
+        ok = contracts.eval_spec_value(ex, cm.wf_rtu, [data, fn, offset, value])
+    else:
+        ok = contracts.eval_spec_value(ex, cm.wf_tcp, [data, fn, offset, value])
+    ex.check("C01_accepted_answer_is_wellformed_for_this_very_request", ok)
